@@ -62,7 +62,7 @@ func flagsText(e [3]int) string {
 func (it Item) Text() string {
 	switch it.K {
 	case "lit":
-		if isAlnum(it.C) {
+		if isAlnum(it.C) || it.C == '-' { // a hyphen outside a class is written as it is
 			return string(rune(it.C))
 		}
 		if it.C == '\n' {
@@ -338,6 +338,13 @@ func genRule(r *rng.R, ft feat) []Item {
 	if r.Chance(1, 4) {
 		ft["anchor"] = true
 		out = append(out, Item{K: "bol"})
+	}
+	if r.Chance(1, 12) { // the expression itself begins with one or two hyphens
+		ft["leading-hyphen"] = true
+		out = append(out, lit('-'))
+		if r.Chance(1, 3) {
+			out = append(out, lit('-'))
+		}
 	}
 	out = append(out, genSeq(r, 0, 1+r.Intn(4), ft, true)...)
 	if r.Chance(1, 4) {
@@ -645,6 +652,9 @@ func corpus() []listCase {
 		{[]entry{{false, bar}, {true, oq}}, reversePerm(2), hosts},
 		{[]entry{{true, bar}}, identityPerm(1), hosts},
 		{[]entry{{false, []Item{{K: "any"}, {K: "rep", Rep: "Star", X: ptr(Item{K: "any"})}}}, {true, lit2("foo")}}, reversePerm(2), hosts},
+		{[]entry{{false, append(lit2(".example.com"), Item{K: "eol"})}, {true, lit2("-staging.")}}, reversePerm(2),
+			[]string{"staging.example.com", "x-staging.example.com", "www.example.com", "-staging.example.com"}},
+		{[]entry{{false, lit2("x")}, {true, lit2("--x")}, {true, lit2("-")}}, []int{2, 0, 1}, []string{"x", "a--x", "a-x", "-x", "--x", "ax"}},
 		{[]entry{{false, nil}}, identityPerm(1), hosts},
 		{[]entry{{false, nil}, {false, nil}}, reversePerm(2), hosts},
 		{[]entry{{false, lit2("foo")}, {true, nil}}, reversePerm(2), hosts},
@@ -821,7 +831,11 @@ func main() {
 					ru = lit2("a")
 				}
 				rules = append(rules, ru)
-				c.Entries = append(c.Entries, entry{Exclude: r.Chance(3, 10), Rule: ru})
+				excl := r.Chance(3, 10)
+				if strings.HasPrefix(Text(ru), "-") {
+					excl = true // an include rule that begins with '-' cannot be written: it reads as an exclusion
+				}
+				c.Entries = append(c.Entries, entry{Exclude: excl, Rule: ru})
 			}
 			c.Perm = identityPerm(n)
 			for j := n - 1; j > 0; j-- {
